@@ -668,7 +668,11 @@ func ruleC12(c *Ctx) {
 		c.check(c.P.withinOnly(s.Caller, allowNames("parseResponse", "DecodeUnverifiedBaseResponse", "DecodeUnverifiedLogoutResponse")), "C12-R5", shortFn(s.Caller), "caller of maybeDeflate", c.P.InstrPos(s.Instr), "analysed caller", "new caller of maybeDeflate: its limit is not analysed")
 	})
 	scanCalls(c.P, c.P.LibFns, func(s string) bool { return shortName(s) == "parseResponse" }, func(s callSite) {
-		c.check(c.P.withinOnly(s.Caller, allowNames(ssoSpec.Entry, loRespSpec.Entry, loReqSpec.Entry, "(*SAMLServiceProvider).decryptAssertions")), "C12-R5", shortFn(s.Caller), "caller of parseResponse", c.P.InstrPos(s.Instr), "analysed caller", "new caller of parseResponse: its limit is not analysed")
+		okCaller := c.P.withinOnly(s.Caller, allowNames(ssoSpec.Entry, loRespSpec.Entry, loReqSpec.Entry, "(*SAMLServiceProvider).decryptAssertions"))
+		if !okCaller && s.Caller.Parent() == nil && !isPublicFn(s.Caller) && len(c.P.callerIndex()[s.Caller]) == 0 {
+			okCaller = true // an unexported wrapper nothing in the library calls (kept for the tests): not an entry into the parser
+		}
+		c.check(okCaller, "C12-R5", shortFn(s.Caller), "caller of parseResponse", c.P.InstrPos(s.Instr), "analysed caller", "new caller of parseResponse: its limit is not analysed")
 	})
 	// reachability of maybeDeflate from each inbound entry point
 	target := c.fn("maybeDeflate")
